@@ -62,6 +62,7 @@ type URLj struct {
 	Path   string `json:"path"`   // hex
 	Raw    string `json:"raw"`    // hex
 	Plain  bool   `json:"plain"`  // no userinfo, opaque, query, fragment, omit-host
+	Deco   int    `json:"deco"`   // 0 nothing; 1 userinfo / query / fragment; 2 only opaque or omit-host
 	Str    string `json:"str"`    // String(), for humans
 }
 
@@ -774,9 +775,15 @@ func buildCSR(key *ecdsa.PrivateKey, s sanSpec) (string, error) {
 }
 
 func urlj(u *url.URL) URLj {
-	plain := u.User == nil && u.Opaque == "" && u.RawQuery == "" && !u.ForceQuery && u.Fragment == "" &&
-		u.RawFragment == "" && !u.OmitHost
-	return URLj{Scheme: hx(u.Scheme), Host: hx(u.Host), Path: hx(u.Path), Raw: hx(u.RawPath), Plain: plain, Str: u.String()}
+	user := u.User != nil || u.RawQuery != "" || u.ForceQuery || u.Fragment != "" || u.RawFragment != ""
+	form := u.Opaque != "" || u.OmitHost
+	deco := 0
+	if user {
+		deco = 1
+	} else if form {
+		deco = 2
+	}
+	return URLj{Scheme: hx(u.Scheme), Host: hx(u.Host), Path: hx(u.Path), Raw: hx(u.RawPath), Plain: !user && !form, Deco: deco, Str: u.String()}
 }
 
 type genEnv struct {
@@ -1378,6 +1385,10 @@ func classify(err error) (string, string) {
 		return "unsupported", s
 	case acl.IsErrPermissionDenied(err):
 		return "denied", s
+	case strings.Contains(s, "must not have userinfo, a query or a fragment"):
+		return "decorated", s
+	case strings.Contains(s, "of the certificate signing request is not this datacenter"):
+		return "datacenter", s
 	case strings.Contains(s, "different datacenter"):
 		return "datacenter", s
 	case strings.Contains(s, "different trust domain"):
